@@ -122,3 +122,98 @@ def parse_kv(line):
     if key is not None and key not in d:
         d[key] = []
     return d
+
+
+# ---------------------------------------------------------------- programs, tracers, Coq in parallel
+PROGRAMS = {
+    # key: (mfront files, tracer source, generated Coq module)
+    "el": (["C41Elasticity"], "trace_el.cxx", "GenEl.v"),
+    "norton": (["C41ImplicitNorton"], "trace_norton.cxx", "GenNorton.v"),
+    "iso": (["C41Plasticity", "C41NortonCreep"], "trace_iso.cxx", "GenIso.v"),
+}
+
+
+def trace_programs(c, keys, hyps, ncases, srcdir=HERE, programs=None):
+    """mfront -> C++ -> tracer (Sym + double) for the given program keys.  Returns {key: (gen_v_path, stdout_lines)};
+    reports tracer failures itself.  hyps: {key: 'h3d,hag'}."""
+    from concurrent.futures import ThreadPoolExecutor
+    programs = programs or PROGRAMS
+    gdir = os.path.join(c.work, "gen")
+    files = []
+    for k in keys:
+        files += [os.path.join(srcdir, "mfront", n + ".mfront") for n in programs[k][0]]
+    mfront_generate(c, files, gdir)
+    mutated = []
+    for k in keys:
+        for n in programs[k][0]:
+            if mutate_generated(gdir, n):
+                mutated.append(n)
+    if mutated:
+        c.notes.append("TESTING AID ACTIVE: generated headers mutated via VERIF_GEN_MUTATION for %s" % mutated)
+    os.makedirs(os.path.join(c.work, "coq"), exist_ok=True)
+
+    def one(k):
+        names, src, genv = programs[k]
+        gens = [os.path.join(gdir, "src", n + ".cxx") for n in names]
+        exe = c.cxx("trace_" + k, [os.path.join(srcdir, src)] + gens, SUPPORT + ["src/Math/MathException.cxx"],
+                    flags=include_flags(gdir))
+        out_v = os.path.join(c.work, "coq", genv)
+        rc, out, err = c.run([exe, "gen", out_v, str(c.seed % 1000003), str(ncases), hyps[k]], timeout=600)
+        return k, rc, out, err, out_v
+
+    res = {}
+    with ThreadPoolExecutor(max_workers=len(keys)) as ex:
+        for k, rc, out, err, out_v in ex.map(one, keys):
+            if rc != 0:
+                c.report("trace:" + k, "tracer of program %s failed (generated class no longer instantiates / runs with Sym): %s" % (
+                    k, err[-600:]), {"stderr": err[-3000:], "program": k}, False)
+                continue
+            res[k] = (out_v, out.splitlines())
+    return res
+
+
+def agreement(c, lines):
+    n = 0
+    for l in lines:
+        if not l.startswith("AGREE"):
+            continue
+        t = l.split()
+        kv = dict(x.split("=") for x in t[3:] if "=" in x)
+        n += int(kv["n"])
+        c.count(int(kv["n"]))
+        if int(kv["bad"]) != 0 or int(kv["n"]) == 0:
+            c.report("agree:%s:%s" % (t[1], t[2]), "traced DAG and double instantiation of the generated class disagree (or no case ran): " + l,
+                     {"line": l}, False)
+    return n
+
+
+def coq_parallel(c, common, parallel, last, timeout=900):
+    """compile `common` (in order), then the files of `parallel` concurrently, then `last` (the Properties files)"""
+    from concurrent.futures import ThreadPoolExecutor
+    r0 = c.coq(common, timeout=timeout)
+    if not r0.ok:
+        return r0
+    with ThreadPoolExecutor(max_workers=max(1, min(8, len(parallel)))) as ex:
+        rs = list(ex.map(lambda f: c.coq([f], timeout=timeout), parallel))
+    bad = [r for r in rs if not r.ok]
+    if bad:
+        # the Properties files cannot be compiled; count their theorems as undischarged obligations
+        r = bad[0]
+        for b in bad[1:]:
+            r.failed += b.failed
+        n = 0
+        for f in last:
+            txt = open(f if os.path.isabs(f) else os.path.join(c.dir, "coq", f)).read()
+            n += len(re.findall(r"^\s*(?:Theorem|Lemma|Corollary|Example)\s+", txt, flags=re.M))
+        c.coverage["obligations"] += n
+        r.ok = False
+        return r
+    return c.coq(last, timeout=timeout)
+
+
+def stiffness(young, nu, S):
+    la, mu = lame(young, nu)
+    return [[(la if (i < 3 and j < 3) else 0.0) + (2 * mu if i == j else 0.0) for j in range(S)] for i in range(S)]
+
+
+HYP_SIZE = {"h3d": 6, "hpe": 4, "hax": 4, "hag": 3}
